@@ -1,4 +1,5 @@
 """C10 - timeouts, non-blocking mode and missing runtimes behave as documented."""
+import re
 from .mcommon import *
 from .ucommon import uroles
 from .roles import adt_of
@@ -6,7 +7,7 @@ from .facts import strip_generics, Operand, Place
 from .analysis import result_matches, sources, sources_across
 from .engine import Undecided
 
-TECHNIQUE = 'decision-table extraction by constrained CFG exploration of the (runtime, duration) matches, def-use origin of the arguments at the apply_timeout call sites, struct-field coverage of the build() test, error-discipline rule on every apply_timeout result'
+TECHNIQUE = 'decision tables by abstract evaluation of the tests on (wait timeout, runtime, duration) with constrained CFG exploration per row (dprules/abseval.py), def-use origin of the arguments at the apply_timeout call sites, struct-field coverage of the build() test, error-discipline rule on every apply_timeout result'
 LEVEL_TEXT = 'static analysis of every path of apply_timeout, the getter entry, PoolBuilder::build, unmanaged timeout_get and Runtime::timeout'
 EXPLANATION = ('Decided: non-blocking mode is exactly wait == Some(d) with d.as_nanos() == 0 and reaches the loop without a suspension point; '
                'apply_timeout is the three-row table (_, None) -> await the future, (Some, Some) -> Runtime::timeout mapping None to '
@@ -92,7 +93,7 @@ def zero_duration_test(src):
     return calls == {'std::time::Duration::as_nanos'} and {s[1] for s in src if s[0] == 'bin'} == {'Eq'} and any(s[0] == 'const' and s[1] == '0_u128' for s in src)
 
 
-def events_in(an, blocks, body):
+def events_in(an, blocks, body, wrapper=None):
     ev = set()
     for x in blocks:
         blk = body.blocks[x]
@@ -102,6 +103,8 @@ def events_in(an, blocks, body):
         if t.kind == 'yield':
             ev.add('yield')
         if t.kind == 'call':
+            if wrapper is not None and t.rcallee and strip_generics(t.rcallee) == wrapper:
+                ev.add('apply_timeout')
             for n in t.callee_names():
                 if n == 'deadpool_runtime::Runtime::timeout':
                     ev.add('Runtime::timeout')
@@ -131,6 +134,50 @@ def build_runtime_check(ctx, r, rule):
         ctx.saw(bd)
         ban = prog.an(bd)
         tfields = [f['name'] for f in r.crate.adt(TIMEOUTS)['variants'][0]['fields']]
+        # decision table by abstract evaluation: one row per timeout field set alone, with and without a runtime, plus the
+        # row without any timeout.  Falls back to the idiom-based reading below when a test is not understood.
+        from .abseval import Eval
+        def run_row(setf, rt):
+            def leaf(op, origins):
+                fl = {o[1] for o in origins if o[0] == 'field'}
+                tf = {x.split('.')[-1] for x in fl if x.startswith(TIMEOUTS + '.')}
+                if len(tf) == 1 and not any(x.endswith('.runtime') for x in fl):
+                    return ('Some', 'nonzero') if list(tf)[0] == setf else 'None'
+                if any(x.endswith('PoolBuilder.runtime') or x.endswith('.runtime') for x in fl) and not tf:
+                    return ('Some', None) if rt else 'None'
+                return None
+            def depends(origins):
+                return any(o[0] == 'field' and (o[1].startswith(TIMEOUTS + '.') or o[1].endswith('.runtime')) for o in origins)
+            ev = Eval(ban, leaf, depends)
+            blocks = ev.explore()
+            got = set()
+            for x in blocks:
+                for st in bd.blocks[x].stmts:
+                    if st.kind == 'assign' and st.rv.kind == 'agg' and st.rv.j.get('ak') == 'adt':
+                        if st.rv.j.get('adt', '').endswith('BuildError'):
+                            got.add('err:' + st.rv.j['variant'])
+                        if st.rv.j.get('adt') == 'std::result::Result' and st.place.is_local() and st.place.local == 0:
+                            got.add(st.rv.j['variant'])
+            return got, ev.unknown
+        table = {}
+        unknown = False
+        for f in tfields + [None]:
+            for rt in (False, True):
+                got, unk = run_row(f, rt)
+                table[(f, rt)] = got
+                unknown = unknown or bool(unk)
+        if not unknown:
+            for f in tfields:
+                okf = 'err:NoRuntimeSpecified' in table[(f, False)] and 'Ok' not in table[(f, False)]
+                ctx.ob(rule, 'build() rejects timeouts.%s without a runtime' % f, okf, ctx.where(bd), 'with only %s set and no runtime build() reaches %s' % (f, sorted(table[(f, False)])),
+                       construct='build:timeout-field:' + f)
+            okr = all('Ok' in table[(f, True)] and not any(e.startswith('err:') for e in table[(f, True)]) for f in tfields + [None]) and \
+                'Ok' in table[(None, False)] and not any(e.startswith('err:') for e in table[(None, False)])
+            ctx.ob(rule, 'the rejection is conditional on runtime.is_none()', okr, ctx.where(bd),
+                   'rows %s' % {('%s,%s' % (k[0], 'runtime' if k[1] else 'no runtime')): sorted(v) for k, v in table.items()} if not okr else '', construct='build:runtime-test')
+            made = [s.rv.j['variant'] for blk in bd.blocks for s in blk.stmts if s.kind == 'assign' and s.rv.kind == 'agg' and s.rv.j.get('adt', '').endswith('BuildError')]
+            ctx.ob(rule, 'the error is BuildError::NoRuntimeSpecified', made == ['NoRuntimeSpecified'], ctx.where(bd), str(made), construct='build:error')
+            return
         errs = [bb for bb, cls, det in ban.ret_assignments() if cls == 'err']
         tested = {}
         rt_test = None
@@ -275,52 +322,56 @@ def run(ctx):
                'suspension points that do not belong to the await of %s: %s' % (root.name, stray), construct='nonblocking:helper-await')
     an = prog.an(root)
 
-    # ---- R10.1 non-blocking mode ---------------------------------------------------------------
+    # ---- R10.1 non-blocking mode: decision table of the getter over `timeouts.wait` (dprules/abseval.py) ---------------
     tacq = [blk for blk in root.blocks if r.is_sem_call(root, blk.term, 'try_acquire') and not blk.cleanup]
     ats = [blk for blk in root.blocks if blk.term.kind == 'call' and not blk.cleanup and blk.term.rcallee and strip_generics(blk.term.rcallee) == r.TIMEOUT_WRAPPER_FN]
     if len(tacq) != 1 or not ats:
         ctx.undecide('R10.1', 'getter: try_acquire sites %d, apply_timeout sites %d' % (len(tacq), len(ats)))
     else:
-        sw = None
-        for d in sorted(an.doms(('normal',)).get(tacq[0].idx) or (), reverse=True):
-            blk = root.blocks[d]
-            if blk.term.kind == 'switch' and blk.term.j.get('dty') == 'bool':
-                arms = dict(blk.term.switch_arms())
-                if tacq[0].idx in an.reach([arms['true']], ('normal',), avoid=[arms['false']]) and ats[0].idx in an.reach([arms['false']], ('normal',), avoid=[arms['true']]):
-                    sw = blk; break
-        if sw is None:
-            ctx.ob('R10.1', 'try_acquire and the waiting acquire are the two arms of one test', False, ctx.where(root, tacq[0].term.line), '', construct='nonblocking:shape')
-        else:
-            src = sources(an, sw.term.discr)
-            fields = {s[1] for s in src if s[0] in ('field', 'upvar')}
-            for s in list(src):
-                if s[0] == 'call' and s[1] in ZERO_CALLS:
-                    fields |= {s2[1] for s2 in sources(an, root.blocks[s[2]].term.args[0]) if s2[0] in ('field', 'upvar')}
-            calls = {s[1] for s in src if s[0] == 'call'}
-            consts = {s[1] for s in src if s[0] == 'const'}
-            bins = {s[1] for s in src if s[0] == 'bin'}
-            # (`None => false` is decided below by where the None arm leads: to the waiting acquire, not to try_acquire)
-            ok = any(f.endswith('.wait') for f in fields) and zero_duration_test({s_ for s_ in src if not (s_[0] == 'const' and s_[1] in ('false', 'true'))})
-            ctx.ob('R10.1', 'non-blocking = wait is Some(d) and d.as_nanos() == 0', ok, ctx.where(root, sw.term.line),
-                   'test built from fields %s, calls %s, constants %s, operators %s' % (sorted(fields), sorted(calls), sorted(consts), sorted(bins)), construct='nonblocking:test',
-                   sites=sorted(calls) + sorted(consts))
-            # None => false : the switch on timeouts.wait assigns const false on its None arm
-            arms = dict(sw.term.switch_arms())
-            pops = [blk.idx for blk, m in queue_calls(r, root, an) if m.startswith('pop')]
-            reach = an.reach([arms['true']], ('normal',), avoid=pops + [arms['false']])
-            ys = [root.blocks[x].term.line for x in reach if root.blocks[x].term.kind == 'yield']
-            ctx.ob('R10.1', 'non-blocking get reaches the idle queue without a suspension point', not ys, ctx.where(root, sw.term.line), 'yield at %s' % ys, construct='nonblocking:no-wait')
-            reach_f = an.reach([arms['false']], ('normal',), avoid=pops + [arms['true']])
-            ctx.ob('R10.1', 'blocking get waits under apply_timeout', ats[0].idx in reach_f and tacq[0].idx not in reach_f, ctx.where(root, ats[0].term.line), '', construct='blocking:apply_timeout')
-            # no wait timeout at all (None) is the blocking mode
-            wsw = [blk for blk in root.blocks if blk.term.kind == 'switch' and blk.term.j.get('adt') == 'std::option::Option' and 'on' in blk.term.j and not blk.cleanup and
-                   any(s_[0] == 'field' and s_[1].endswith('Timeouts.wait') for s_ in sources(an, Operand({'c': blk.term.j['on']}))) and an.dominates(blk.idx, tacq[0].idx)]
-            if wsw:
-                warms = dict(wsw[0].term.switch_arms())
-                rn = an.reach([warms['None']], ('normal',), avoid=[warms.get('Some')] + pops) if 'None' in warms else set()
-                ctx.ob('R10.1', 'without a wait timeout the get waits (never the non-blocking attempt)', tacq[0].idx not in rn and ats[0].idx in rn, ctx.where(root, wsw[0].term.line), '', construct='nonblocking:none-blocks')
-            else:
-                ctx.undecide('R10.1', 'test of timeouts.wait for None not found')
+        from .abseval import Eval
+        pops = [blk.idx for blk, m in queue_calls(r, root, an) if m.startswith('pop')]
+        after = set()
+        for p_ in pops:
+            after |= an.reach_after(p_, ('normal',))
+        wait_f = TIMEOUTS + '.wait'
+        def is_wait(origins):
+            return any(o[0] == 'field' and o[1] == wait_f for o in origins) and not any(o[0] == 'field' and o[1].startswith(TIMEOUTS + '.') and o[1] != wait_f for o in origins)
+        COARSE = ('as_millis', 'as_micros', 'as_secs', 'subsec_nanos', 'subsec_micros', 'subsec_millis', 'as_secs_f32', 'as_secs_f64')
+        rows = {
+            'None': ('None', None, ({'apply_timeout'}, {'err:Timeout'}), 'without a wait timeout the get waits for a permit (it may try first, it never gives up)'),
+            'Some(zero)': ('Some', 'zero', ({'try_acquire'}, {'yield', 'apply_timeout', 'acquire'}), 'a zero wait timeout is the non-blocking attempt: no suspension point, no timer, before the idle queue'),
+            'Some(non-zero)': ('Some', 'nonzero', ({'apply_timeout'}, {'try_acquire', 'err:Timeout'}), 'a non-zero wait timeout waits under apply_timeout (which is what reports a missing runtime)'),
+        }
+        for rname, (var, pay, (must, mustnot), what) in rows.items():
+            def leaf(op, origins, var=var, pay=pay):
+                if not is_wait(origins):
+                    return None
+                if any(x.startswith('@Some') for x in op.place.proj) if op.kind != 'const' else False:
+                    return pay
+                # the Duration inside (a `Some(d)` binding) or the Option itself - told by the operand's type
+                ty = root.locals[op.place.local]['ty'] if not op.place.proj else None
+                if ty is not None and 'Duration' in ty and 'Option' not in ty:
+                    return pay
+                return 'None' if var == 'None' else ('Some', pay)
+            ev = Eval(an, leaf)
+            blocks = ev.explore()
+            got = events_in(an, blocks - after, root, wrapper=r.TIMEOUT_WRAPPER_FN)
+            ok = must <= got and not (mustnot & got)
+            if not ok and ev.unknown:
+                # a test on the wait timeout that the evaluator cannot decide: a coarser unit than nanoseconds is a finding
+                # (sub-unit timeouts would count as zero), anything else is not understood
+                coarse = []
+                for x in ev.unknown:
+                    ds = sources(an, root.blocks[x].term.discr, deep=True) if root.blocks[x].term.discr.kind != 'const' else set()
+                    coarse += [o[1] for o in ds if o[0] == 'call' and o[1].startswith('std::time::Duration::') and o[1].split('::')[-1] in COARSE]
+                if not coarse:
+                    ctx.undecide('R10.1', 'getter row wait=%s: a test on the wait timeout at line(s) %s is not understood' % (rname, [root.blocks[x].term.line for x in ev.unknown]))
+                    continue
+                ctx.ob('R10.1', 'non-blocking = wait is Some(d) and d is zero to the nanosecond', False, ctx.where(root, root.blocks[ev.unknown[0]].term.line),
+                       'the zero test uses %s: every timeout below that unit counts as zero and becomes a non-blocking attempt' % sorted(set(coarse)), construct='nonblocking:test', sites=sorted(set(coarse)))
+                continue
+            ctx.ob('R10.1', 'getter row wait=%s: %s' % (rname, what), ok, ctx.where(root, tacq[0].term.line),
+                   'events before the idle queue %s; required %s; forbidden %s' % (sorted(got), sorted(must), sorted(mustnot)), construct='getter:row:' + rname, sites=sorted(got))
 
     # ---- R10.2 apply_timeout decision table --------------------------------------------------------------
     at = r.TIMEOUT_WRAPPER
@@ -346,9 +397,11 @@ def run(ctx):
         ctx.undecide('R10.2', 'apply_timeout: the decisions on (runtime, duration) were not found (runtime %s, duration %s, switches on them %d)' % (sorted(rt_names), sorted(du_names), n_dec))
     else:
         table = {}
+        row_blocks = {}
         for rt in ('None', 'Some'):
             for du in ('None', 'Some'):
                 blocks = explore(aan, origin_decider(aan, at_role, {'runtime': rt, 'duration': du}))
+                row_blocks[(rt, du)] = blocks
                 table[(rt, du)] = events_in(aan, blocks, at)
         exp = {
             ('None', 'None'): ({'await-future'}, {'Runtime::timeout', 'err:NoRuntimeSpecified', 'err:Timeout'}),
@@ -366,10 +419,19 @@ def run(ctx):
         oks = [(blk.term.line, sorted(blk.term.callee_names())[0]) for blk in at.blocks if blk.term.kind == 'call' and not blk.cleanup and
                (blk.term.callee_names() & {'std::result::Result::ok', 'std::result::Result::unwrap_or', 'std::result::Result::unwrap_or_default', 'std::result::Result::unwrap_or_else'}
                 or any(a.kind == 'const' and a.const.get('fn') and strip_generics(a.const['fn']) in ('std::result::Result::ok',) for a in blk.term.args))]
+        # a conversion site: `map_err(Into::into)` on the awaited result, or `Err(e) => Err(e.into())` spelled out
         intos = [blk for blk in at.blocks if blk.term.kind == 'call' and not blk.cleanup and 'std::result::Result::map_err' in blk.term.callee_names() and
                  any(a.kind == 'const' and a.const.get('fn') and strip_generics(a.const['fn']).endswith('Into::into') for a in blk.term.args)]
-        ctx.ob('R10.2', 'the error of the awaited future is propagated, not swallowed by the timeout wrapper', not oks and len(intos) >= 2, ctx.where(at),
-               'error-discarding calls %s; map_err(Into::into) sites %d (one per awaiting row expected)' % (oks, len(intos)), construct='apply_timeout:inner-error')
+        for blk in at.blocks:
+            t = blk.term
+            if t.kind == 'call' and not blk.cleanup and any(strip_generics(n).endswith('Into>::into') or strip_generics(n).endswith('Into::into') or re.search(r'Into<.*>>::into$', n) for n in t.callee_names()) and t.dest is not None and t.dest.is_local():
+                feeds_err = any(st.kind == 'assign' and st.rv.kind == 'agg' and st.rv.j.get('adt') == 'std::result::Result' and st.rv.j.get('variant') == 'Err' and
+                                any(o.kind != 'const' and not o.place.proj and o.place.local == t.dest.local for o in st.rv.ops) for b2 in at.blocks for st in b2.stmts)
+                if feeds_err:
+                    intos.append(blk)
+        missing = [k for k in (('None', 'None'), ('Some', 'None'), ('Some', 'Some')) if not any(x.idx in row_blocks[k] for x in intos)]
+        ctx.ob('R10.2', 'the error of the awaited future is propagated, not swallowed by the timeout wrapper', not oks and not missing, ctx.where(at),
+               'error-discarding calls %s; rows that await the future without converting its error: %s' % (oks, missing), construct='apply_timeout:inner-error')
         # Timeout carries the timeout_type argument
         tts = [aan.resolve_operand(s.rv.ops[0]) for blk in at.blocks for s in blk.stmts if s.kind == 'assign' and s.rv.kind == 'agg' and s.rv.j.get('adt') == POOLERR and s.rv.j['variant'] == 'Timeout']
         ctx.ob('R10.2', 'Timeout carries the type passed by the caller', len(tts) == 1 and tts[0] in tt_names, ctx.where(at), str(tts), construct='apply_timeout:timeout-type')
